@@ -25,10 +25,14 @@ ASSUMPTIONS = [
 ]
 
 
+QUICK_BUDGET = {"cases": 240, "deadline_s": 110, "case_timeout_s": 90, "floors": {"status_rows": 500, "filtered_views": 400, "previews_snapshotted": 700, "run_compared": 150}}
+THOROUGH_FACTOR = 36  # thorough = the same workload with 36x the cases (floors scale along)
+
+
 def budget(tier):
-    if tier == "thorough":
-        return {"cases": 3000, "deadline_s": 900, "case_timeout_s": 180, "floors": {"status_rows": 8000, "filtered_views": 6000, "previews_snapshotted": 10000, "run_compared": 2000}}
-    return {"cases": 240, "deadline_s": 110, "case_timeout_s": 90, "floors": {"status_rows": 500, "filtered_views": 400, "previews_snapshotted": 700, "run_compared": 150}}
+    from ..core import scaled_budget
+
+    return scaled_budget(QUICK_BUDGET, tier, THOROUGH_FACTOR, noscale=())
 
 
 def gen_case(rng, idx, tier):
